@@ -42,6 +42,8 @@ var exprFaults = []exprFault{
 	{"index", "d.SL[ix]", false, "vnd.And(ix >= 0, ix < 3)", "index"},
 	{"nomethod", "d.Nosuch()", false, "false", "call"},
 	{"nofunc", "nosuch(1)", false, "false", "call"},
+	{"lateroot", "late.I", false, "!lm", "name"},
+	{"lateroot2", "late.P.A", false, "!lm", "name"},
 }
 
 // a position template: lines with %E; isStmt templates hold the fault themselves.
@@ -135,13 +137,14 @@ func (c *CD) PB(a bool) int64  { return c.I }
 type world struct {
 	z, ix         int64
 	npnil, pnil   bool
+	lm            bool // the root object "late" is not injected yet
 	d, np         *CD
 	dc            *context.DataContext
 }
 
 // mkWorld injects the data the fault family uses; the deciding data is symbolic.
 func mkWorld() *world {
-	w := &world{z: vnd.Int64("z"), ix: vnd.Int64("ix"), npnil: vnd.Bool("npnil"), pnil: vnd.Bool("pnil")}
+	w := &world{z: vnd.Int64("z"), ix: vnd.Int64("ix"), npnil: vnd.Bool("npnil"), pnil: vnd.Bool("pnil"), lm: vnd.Bool("lm")}
 	w.dc = context.NewDataContext()
 	w.dc.Add("ev", func(s string) { vnd.Event(s) })
 	w.dc.Add("x", int64(7))
@@ -159,6 +162,9 @@ func mkWorld() *world {
 	w.dc.Add("boomerr", func() int64 { panic(errBoom{}) })
 	w.dc.Add("dd", &CD{I: 2, P: &In{A: 1}})
 	w.set(w.z, w.ix, w.npnil, w.pnil)
+	if !w.lm {
+		w.dc.Add("late", &CD{I: 3, P: &In{A: 4}})
+	}
 	return w
 }
 
@@ -177,7 +183,10 @@ func (w *world) set(z, ix int64, npnil, pnil bool) {
 	w.dc.Add("np", w.np)
 }
 
-func (w *world) heal() { w.set(1, 0, false, false) }
+func (w *world) heal() {
+	w.set(1, 0, false, false)
+	w.dc.Add("late", &CD{I: 3, P: &In{A: 4}})
+}
 
 const healthyText = "rule \"r0\" salience 30 begin\n ev(\"r0.s\")\n ev(\"r0.e\")\nend\nrule \"bad\" salience 20 begin\n ev(\"bad.s\")\n ev(\"bad.e\")\nend\nrule \"r2\" salience 10 begin\n ev(\"r2.s\")\n ev(\"r2.e\")\nend\n"
 
@@ -351,11 +360,12 @@ func genC09(tier string, seed int64) (*Family, error) {
 // fault %s in model %s
 func %s() {
 	w := mkWorld()
-	z, ix, npnil, pnil := w.z, w.ix, w.npnil, w.pnil
-	_, _, _, _ = z, ix, npnil, pnil
+	z, ix, npnil, pnil, lm := w.z, w.ix, w.npnil, w.pnil, w.lm
+	_, _, _, _, _ = z, ix, npnil, pnil, lm
 	pol := vnd.Bool("pol")
 	_ = pol
 	rb := compile(w.dc, %q)
+	rbOrig := rb
 	eng := engine.NewGengine()
 	err := %s
 	vnd.Event("ret")
@@ -379,10 +389,67 @@ func %s() {
 	vnd.Quiesce()
 	vnd.Assert(err2 == nil, "a later healthy call on the same engine succeeds")
 	vnd.Assert(vnd.Count("r2.e") == c0+1, "a later healthy call runs its rules")
+	if %v {
+		// the same rules on repaired data: the earlier failure leaves nothing behind
+		b0 := vnd.Count("bad.e")
+		rb = rbOrig
+		err3 := %s
+		vnd.Quiesce()
+		vnd.Assert(err3 == nil, "the rule that failed succeeds once its data is repaired")
+		vnd.Assert(vnd.Count("bad.e") == b0+1, "the repaired rule runs to its end")
+	}
 }
-`, fc.id, m.id, name, fc.text, m.call, fc.healthy, oracle, m.call)
+`, fc.id, m.id, name, fc.text, m.call, fc.healthy, oracle, m.call, fc.healthy != "false" && !fc.hang, m.call)
 			fam.Instances = append(fam.Instances, Instance{Func: name, Stratum: m.id + "/" + fc.class, Desc: "fault " + fc.id + " in model " + m.id, Text: fc.text, Expect: []string{"executed"}})
 		}
+	}
+	// two rules of one call fail (in the concurrent models: at the same time)
+	text2 := "rule \"r0\" salience 30 begin\n ev(\"r0.s\")\n ev(\"r0.e\")\nend\nrule \"bad\" salience 20 begin\n ev(\"bad.s\")\n y = nosuch + 1\n ev(\"bad.e\")\nend\nrule \"bad2\" salience 15 begin\n ev(\"bad2.s\")\n y = boom()\n ev(\"bad2.e\")\nend\nrule \"bad3\" salience 12 begin\n ev(\"bad3.s\")\n y = np.I\n ev(\"bad3.e\")\nend\nrule \"r2\" salience 10 begin\n ev(\"r2.s\")\n ev(\"r2.e\")\nend\n"
+	all5 := "[]string{\"r2\", \"bad3\", \"bad\", \"r0\", \"bad2\"}"
+	for _, m := range []struct{ id, call string }{
+		{"sort", "eng.Execute(rb, pol)"},
+		{"stoptag", "eng.ExecuteWithStopTagDirect(rb, pol, &engine.Stag{})"},
+		{"concurrent", "eng.ExecuteConcurrent(rb)"},
+		{"mix", "eng.ExecuteMixModel(rb)"},
+		{"inverse", "eng.ExecuteInverseMixModel(rb)"},
+		{"nsortmconc", "eng.ExecuteNSortMConcurrent(1, 4, rb, pol)"},
+		{"nconcmsort", "eng.ExecuteNConcurrentMSort(4, 1, rb, pol)"},
+		{"nconcmconc", "eng.ExecuteNConcurrentMConcurrent(2, 3, rb, pol)"},
+		{"dag", "eng.ExecuteDAGModel(rb, [][]string{{\"r0\"}, {\"bad\", \"bad2\", \"bad3\"}, {\"r2\"}})"},
+		{"dagwide", "eng.ExecuteDAGModel(rb, [][]string{{\"r0\", \"bad\", \"bad2\", \"bad3\", \"r2\"}})"},
+		{"selected", "eng.ExecuteSelectedRulesWithControl(rb, pol, " + all5 + ")"},
+		{"selconc", "eng.ExecuteSelectedRulesConcurrent(rb, " + all5 + ")"},
+		{"selmix", "eng.ExecuteSelectedRulesMixModel(rb, " + all5 + ")"},
+		{"selinverse", "eng.ExecuteSelectedRulesInverseMixModel(rb, " + all5 + ")"},
+		{"selnm", "eng.ExecuteSelectedNConcurrentMSort(4, 1, rb, pol, " + all5 + ")"},
+		{"selnmconc", "eng.ExecuteSelectedNConcurrentMConcurrent(3, 2, rb, pol, " + all5 + ")"},
+	} {
+		name := "F3_" + m.id
+		fmt.Fprintf(&b, `
+// three failing rules in one call, model %s
+func %s() {
+	w := mkWorld()
+	vnd.Assume(w.npnil)
+	pol := vnd.Bool("pol")
+	_ = pol
+	rb := compile(w.dc, %q)
+	eng := engine.NewGengine()
+	err := %s
+	vnd.Event("ret")
+	vnd.Quiesce()
+	vnd.Reach("executed")
+	vnd.Assert(err != nil, "a fault surfaces as a non-nil error")
+	vnd.Assert(vnd.Count("bad.e")+vnd.Count("bad2.e")+vnd.Count("bad3.e") == 0, "a failing rule stops at its fault")
+	w.heal()
+	rb = compile(w.dc, healthyText)
+	c0 := vnd.Count("r2.e")
+	err2 := eng.Execute(rb, true)
+	vnd.Quiesce()
+	vnd.Assert(err2 == nil, "a later healthy call on the same engine succeeds")
+	vnd.Assert(vnd.Count("r2.e") == c0+1, "a later healthy call runs its rules")
+}
+`, m.id, name, text2, m.call)
+		fam.Instances = append(fam.Instances, Instance{Func: name, Stratum: m.id + "/three-faults", Desc: "three failing rules in model " + m.id, Text: text2, Expect: []string{"executed"}})
 	}
 	fam.Files[repoDir+"/zz_verif/"+pkg+"/h.go"] = c09Head(pkg) + b.String()
 	fam.TestFile = repoDir + "/zz_verif/" + pkg + "/zz_replay_test.go"
@@ -466,8 +533,8 @@ func genC20(tier string, seed int64) (*Family, error) {
 // fault %s on line %d (enclosing statement lines %d-%d)
 func %s() {
 	w := mkWorld()
-	z, ix, npnil, pnil := w.z, w.ix, w.npnil, w.pnil
-	_, _, _, _ = z, ix, npnil, pnil
+	z, ix, npnil, pnil, lm := w.z, w.ix, w.npnil, w.pnil, w.lm
+	_, _, _, _, _ = z, ix, npnil, pnil, lm
 	rb := compile(w.dc, %q)
 	eng := engine.NewGengine()
 	err := eng.Execute(rb, true)
@@ -510,8 +577,8 @@ func %s() {
 // fault %s compiled through %s, text starting with three blank lines
 func %s() {
 	w := mkWorld()
-	z, ix, npnil, pnil := w.z, w.ix, w.npnil, w.pnil
-	_, _, _, _ = z, ix, npnil, pnil
+	z, ix, npnil, pnil, lm := w.z, w.ix, w.npnil, w.pnil, w.lm
+	_, _, _, _, _ = z, ix, npnil, pnil, lm
 	err := viaEntry(%q, w, %q)
 	vnd.Reach("executed")
 	if err == nil {
